@@ -274,3 +274,103 @@ func VerifC05Order() {
 		}
 	}
 }
+
+// ---- large tables ("up to thousands of records") ----
+
+func c05Itoa(n int) string {
+	if n == 0 {
+		return "0"
+	}
+	s := ""
+	for n > 0 {
+		s = string(rune('0'+n%10)) + s
+		n /= 10
+	}
+	return s
+}
+
+const c05LongSeg = "-a-fairly-long-static-segment-after-the-number"
+
+// c05LargeTable: n groups of three records below a group-specific long prefix
+// (the prefixes differ from their second byte on, so the trie gets ~50 slots per group):
+// a parameter record, a static sibling that shares two bytes with nothing else,
+// and a deeper parameter record (so that a lookup follows the static edge first
+// and has to come back to the parameter edge).
+func c05LargeTable(n int) []Record {
+	recs := make([]Record, 0, 3*n)
+	for i := 0; i < n; i++ {
+		p := "/" + c05Itoa(i) + c05LongSeg
+		recs = append(recs, NewRecord(p+"/:id", "P"+c05Itoa(i)))
+		recs = append(recs, NewRecord(p+"/zq", "S"+c05Itoa(i)))
+		recs = append(recs, NewRecord(p+"/:id/sub/:k", "D"+c05Itoa(i)))
+	}
+	return recs
+}
+
+// VerifC05Large: a table of thousands of records (built once, concretely, by
+// the real Build); lookups below a few of the groups with an arbitrary tail.
+func VerifC05Large() {
+	n := zv.Param("groups", 700)
+	rt := zv.Cached("c05-large", func() interface{} {
+		r := New()
+		if err := r.Build(c05LargeTable(n)); err != nil {
+			panic("c05: large table rejected: " + err.Error())
+		}
+		return r
+	}).(*Router)
+	g := []int{0, 5, n / 7, n / 3, n / 2, 2 * n / 3, n - 2, n - 1}[zv.Choose("group", 8)]
+	// the tail starts like the static sibling ("z", "zq") or not at all and ends
+	// in arbitrary bytes: the lookup follows the static edge and must come back
+	tail := []string{"", "z", "zq"}[zv.Choose("tail-prefix", 3)] + zv.String("tail", zv.Param("taillen", 1))
+	reserved := c05Reserved(tail)
+	path := "/" + c05Itoa(g) + c05LongSeg + "/" + tail
+	deep := zv.Choose("deep", 2) == 1
+	if deep {
+		path += "/sub/kk"
+	}
+	res := c05Lookup(rt, path)
+	zv.AssertExcept("large-lookup-never-panics", !res.panicked, reserved, "KF-C05-reserved-bytes")
+	if res.panicked {
+		return
+	}
+	slash := false
+	for k := 0; k < len(tail); k++ {
+		slash = zv.Or(slash, tail[k] == '/')
+	}
+	if slash || len(tail) == 0 {
+		// not an instantiation with a non-empty single-segment text (or another shape): only soundness
+		if res.found {
+			d, _ := res.data.(string)
+			zv.Assert("large-sound-group", len(d) > 1 && d[1:] == c05Itoa(g))
+		}
+		return
+	}
+	want := "P" + c05Itoa(g)
+	if deep {
+		want = "D" + c05Itoa(g)
+	} else if tail == "zq" {
+		want = "S" + c05Itoa(g)
+	}
+	zv.Reach("large-found")
+	zv.AssertExcept("large-complete", res.found, reserved, "KF-C05-reserved-bytes")
+	if !res.found {
+		return
+	}
+	d, _ := res.data.(string)
+	zv.AssertExcept("large-value", d == want, reserved, "KF-C05-reserved-bytes")
+	if d != want {
+		return
+	}
+	if want[0] == 'S' {
+		zv.Assert("large-static-no-params", len(res.params) == 0)
+		return
+	}
+	zv.Assert("large-param-count", (deep && len(res.params) == 2) || (!deep && len(res.params) == 1))
+	if len(res.params) > 0 {
+		zv.Assert("large-param-name", res.params[0].Name == "id")
+		zv.AssertExcept("large-param-value", zv.StrEq(res.params[0].Value, tail), reserved, "KF-C05-reserved-bytes")
+	}
+	if deep && len(res.params) == 2 {
+		zv.Assert("large-second-param", res.params[1].Name == "k" && res.params[1].Value == "kk")
+	}
+}
